@@ -12,12 +12,14 @@ package rawmessagesfilter
 //@   requires [own-height] message.BlockHeight() == caller.state.height
 //@   requires [own-instance] message.InstanceId() == caller.instanceId
 //@   requires [not-from-me] message.SenderMemberId() != caller.myMemberId
+//@   requires [O17.the-installed-term-is-the-term-of-the-current-height] TermHeightOf(dyn(self, *leanhelixterm.LeanHelixTerm)) == caller.state.height
 //@   modifies state.State.height, state.State.view, rawmessagesfilter.RawMessageFilter.consensusMessagesHandler, rawmessagesfilter.RawMessageFilter.latestFutureBlockHeight, M:Int:Slice_Iface, ghost:ndelivered, ghost:delivered, ghost:lastRoundHeight, ghost:lastCommitHeight, M:S_state_HeightView:Int
 //@   ensures ndelivered >= old(ndelivered) + 1 && delivered[old(ndelivered)] == message
 //@   ensures forall j int :: 0 <= j && j < old(ndelivered) ==> delivered[j] == old(delivered[j])
 //@   ensures caller.state.height == old(caller.state.height) ==> ndelivered == old(ndelivered) + 1 && caller.consensusMessagesHandler == old(caller.consensusMessagesHandler) && caller.latestFutureBlockHeight == old(caller.latestFutureBlockHeight)
 //@   ensures caller.state.height == old(caller.state.height) ==> (forall k int :: has(caller.futureCache, k) == old(has(caller.futureCache, k)) && caller.futureCache[k] == old(caller.futureCache[k]))
 //@   ensures caller.state.height >= old(caller.state.height)
+//@   ensures [O17.installed-term-follows-the-height] (caller.consensusMessagesHandler != nil ==> TermHeightOf(dyn(caller.consensusMessagesHandler, *leanhelixterm.LeanHelixTerm)) == caller.state.height)
 //@   ensures lastRoundHeight >= old(lastRoundHeight) && lastCommitHeight >= old(lastCommitHeight) && (old(lastRoundHeight) <= old(caller.state.height) ==> lastRoundHeight <= caller.state.height)
 //@   ensures old(lastCommitHeight) <= old(caller.state.height) ==> lastCommitHeight <= caller.state.height
 //@   ensures caller.state.height == old(caller.state.height) ==> lastRoundHeight == old(lastRoundHeight)
@@ -38,6 +40,7 @@ package rawmessagesfilter
 //@     invariant [frame] f.futureCache == old(f.futureCache)
 
 //@ func (*RawMessageFilter).HandleConsensusRawMessage
+//@   inv [O17.the-installed-term-is-the-term-of-the-current-height] (f.consensusMessagesHandler != nil ==> TermHeightOf(dyn(f.consensusMessagesHandler, *leanhelixterm.LeanHelixTerm)) == f.state.height)
 //@   ensures [height-forward] f.state.height >= old(f.state.height) && f.state == old(f.state) && lastRoundHeight >= old(lastRoundHeight) && (old(lastRoundHeight) <= old(f.state.height) ==> lastRoundHeight <= f.state.height)
 //@   ensures [commits-below-state] lastCommitHeight >= old(lastCommitHeight) && (old(lastCommitHeight) <= old(f.state.height) ==> lastCommitHeight <= f.state.height) && ndelivered >= old(ndelivered)
 //@   ensures [no-round-without-height-change] f.state.height == old(f.state.height) ==> lastRoundHeight == old(lastRoundHeight)
@@ -59,6 +62,8 @@ package rawmessagesfilter
 //@   ensures [nothing-delivered-when-cached-or-dropped] !(message != nil && message.SenderMemberId() != f.myMemberId && message.BlockHeight() == old(f.state.height) && message.InstanceId() == f.instanceId) ==> ndelivered == old(ndelivered) && f.state.height == old(f.state.height)
 
 //@ func (*RawMessageFilter).ConsumeCacheMessages
+//@   requires [O17.the-term-being-installed-is-the-term-of-the-current-height] consensusMessagesHandler != nil ==> TermHeightOf(dyn(consensusMessagesHandler, *leanhelixterm.LeanHelixTerm)) == f.state.height
+//@   ensures [O17.the-installed-term-is-the-term-of-the-current-height] (f.consensusMessagesHandler != nil ==> TermHeightOf(dyn(f.consensusMessagesHandler, *leanhelixterm.LeanHelixTerm)) == f.state.height)
 //@   ensures [height-forward] f.state.height >= old(f.state.height) && f.state == old(f.state) && lastRoundHeight >= old(lastRoundHeight) && (old(lastRoundHeight) <= old(f.state.height) ==> lastRoundHeight <= f.state.height)
 //@   ensures [commits-below-state] lastCommitHeight >= old(lastCommitHeight) && (old(lastCommitHeight) <= old(f.state.height) ==> lastCommitHeight <= f.state.height) && ndelivered >= old(ndelivered)
 //@   ensures [no-round-without-height-change] f.state.height == old(f.state.height) ==> lastRoundHeight == old(lastRoundHeight)
@@ -76,6 +81,7 @@ package rawmessagesfilter
 //@     invariant [height-monotone] f.state.height >= height && height == old(f.state.height)
 //@     invariant [commits] lastCommitHeight >= old(lastCommitHeight) && (old(lastCommitHeight) <= old(f.state.height) ==> lastCommitHeight <= f.state.height)
 //@     invariant [rounds] lastRoundHeight >= old(lastRoundHeight) && (old(lastRoundHeight) <= old(f.state.height) ==> lastRoundHeight <= f.state.height) && (f.state.height == old(f.state.height) ==> lastRoundHeight == old(lastRoundHeight))
+//@     invariant [installed-term] f.consensusMessagesHandler != nil ==> TermHeightOf(dyn(f.consensusMessagesHandler, *leanhelixterm.LeanHelixTerm)) == f.state.height
 //@     invariant [messages-are-the-cached-ones] messages == old(f.futureCache[old(f.state.height)])
 //@     invariant [log.count] consensusMessagesHandler != nil && f.state.height == height ==> ndelivered == old(ndelivered) + $i && f.consensusMessagesHandler == consensusMessagesHandler
 //@     invariant [log.elems] consensusMessagesHandler != nil && f.state.height == height ==> (forall j int :: old(ndelivered) <= j && j < old(ndelivered) + $i ==> delivered[j] == messages[j - old(ndelivered)])
